@@ -168,19 +168,31 @@ def run(ctx):
                 elif st != "ok":
                     failing.append(dict(files=files if len(str(files)) < 3000 else tag, base=base, kind=tag, profile=prof, mode=mode,
                                         why="rva lint %s ends with %s: %s" % (" ".join(mode), st, err[-300:]), cls=st))
-    # self-inclusion on disk (the CLI reader's already-read test)
+    # self-inclusion and include cycles on disk (the CLI reader's already-read test), with every spelling of the paths:
+    # plain names, "./name", through a sub-directory and back ("../"), through a symbolic link
     d = os.path.join(work, "self")
-    os.makedirs(d)
+    os.makedirs(os.path.join(d, "inc"))
     open(os.path.join(d, "a.s"), "w").write('main:\n.include "a.s"\n.include "./b.s"\n li a7, 10\n ecall\n')
     open(os.path.join(d, "b.s"), "w").write('li a0, 1\n.include "a.s"\n.include "b.s"\n')
-    for mode in ([], ["--json"], ["--all-files", "--compact"]):
-        cli_runs += 1
-        try:
-            p = subprocess.run([rva, "lint"] + mode + [os.path.join(d, "a.s")], stdout=subprocess.PIPE, stderr=subprocess.PIPE, timeout=20)
-            if p.returncode != 0:
-                failing.append(dict(files="self-including files on disk", mode=mode, why="rva exits with %s: %s" % (p.returncode, p.stderr.decode()[-200:]), cls="rc"))
-        except subprocess.TimeoutExpired:
-            failing.append(dict(files="self-including files on disk", mode=mode, why="self/cyclic inclusion does not terminate", cls="hang:include"))
+    open(os.path.join(d, "dot.s"), "w").write('main:\n li a7, 10\n ecall\n.include "./dot.s"\n')
+    open(os.path.join(d, "up.s"), "w").write('main:\n li a7, 10\n ecall\n.include "./inc/util.s"\n')
+    open(os.path.join(d, "inc", "util.s"), "w").write('helper:\n ret\n.include "../up.s"\n.include "../inc/util.s"\n')
+    open(os.path.join(d, "lnk.s"), "w").write('main:\n li a7, 10\n ecall\n.include "alias.s"\n')
+    try:
+        os.symlink("lnk.s", os.path.join(d, "alias.s"))
+    except OSError:
+        pass
+    for start in ("a.s", "dot.s", "up.s", "lnk.s"):
+        for mode in ([], ["--json"], ["--all-files", "--compact"]):
+            cli_runs += 1
+            try:
+                p = subprocess.run([rva, "lint"] + mode + [os.path.join(d, start)], stdout=subprocess.PIPE, stderr=subprocess.PIPE, timeout=10)
+                if p.returncode != 0:
+                    failing.append(dict(files="include cycle on disk starting at %s" % start, mode=mode, why="rva exits with %s: %s" % (p.returncode, p.stderr.decode()[-200:]), cls="rc"))
+            except subprocess.TimeoutExpired:
+                failing.append(dict(files="include cycle on disk starting at %s (see tools/props/C06.py for the files)" % start, mode=mode,
+                                    why="self/cyclic inclusion does not terminate", cls="hang:include"))
+                break
     shutil.rmtree(work, ignore_errors=True)
     # ---- verdict --------------------------------------------------------------------------------------
     tags = {}
